@@ -93,7 +93,20 @@ func refSegment(compressedFormat bool, selfContained bool, wire []byte, uncompre
 func contentClasses(r *lp.Rng, n int) [][]byte {
 	zero := make([]byte, n)
 	rep := bytes.Repeat([]byte("abcdefgh"), n/8+1)[:n]
-	return [][]byte{zero, rep, r.Bytes(n)}
+	cls := [][]byte{zero, rep, r.Bytes(n)}
+	if n >= 96 {
+		// mixed contents: noise followed by a short run, a run followed by noise, noise with one repeated stretch in the middle —
+		// a compressor meets its first match only after a long literal, or ends on literals
+		k := 16 + r.Intn(64)
+		a := r.Bytes(n)
+		copy(a[n-k:], make([]byte, k))
+		b := r.Bytes(n)
+		copy(b[:k], make([]byte, k))
+		c := r.Bytes(n)
+		copy(c[n/2:n/2+k/2], c[n/2-k/2:n/2])
+		cls = append(cls, a, b, c)
+	}
+	return cls
 }
 
 func segLengths(r *lp.Rng) []int {
@@ -185,6 +198,27 @@ func runC06(res *lp.Result) {
 		if !bytes.Equal(dec.Payload.UncompressedData, p) || dec.Header.IsSelfContained != sc || rd.Len() != len(trailer) ||
 			int(dec.Header.UncompressedPayloadLength) != len(p) {
 			res.Add(lp.Finding{Kind: "violation", What: "segment round trip lost payload, flag, lengths or consumed the wrong number of bytes", Input: id})
+		}
+		// the decoded segment owns its payload: a source buffer that is reused afterwards (the next segment is written into the same
+		// *bytes.Buffer, the backing array is overwritten) must not change a payload that has been handed out
+		{
+			backing := append(append([]byte{}, enc...), enc...)
+			bb := bytes.NewBuffer(backing)
+			d1, e1 := codecs[cname].DecodeSegment(bb)
+			if e1 == nil {
+				for i := range backing {
+					backing[i] ^= 0x5a
+				}
+				bb.Reset()
+				bb.Write(bytes.Repeat([]byte{0xee}, len(enc)))
+				if !bytes.Equal(d1.Payload.UncompressedData, p) {
+					res.Add(lp.Finding{Kind: "violation", What: "payload of a decoded segment changes when the source buffer it was read from is reused (" + cname + ")",
+						Input: id + " payload=" + hx(p[:minInt(len(p), 64)])})
+				}
+			} else {
+				res.Add(lp.Finding{Kind: "violation", What: "segment does not decode from a *bytes.Buffer holding two segments (" + cname + "): " + firstWords(e1.Error()), Input: id})
+			}
+			res.Count("source-reuse")
 		}
 		// the same bytes from sources that deliver them piecewise (a connection does): one byte per Read, a few bytes, TCP-sized
 		// pieces, and a cut chosen inside the trailing CRC-32; two segments back to back, nothing left over
